@@ -254,6 +254,20 @@ pub fn run_pubr(toks: &[&str]) -> String {
     out.join(" ")
 }
 
+/// wrn <path> real_s real_n mono_s mono_n : a daemon starts over the file (ShmWriter::new) and has not published
+/// anything yet; a client attaches now and calls.  -> W:ok|W:err:<kind> then as `seg`
+pub fn run_wrn(toks: &[&str]) -> String {
+    let w = std::panic::catch_unwind(|| ShmWriter::new(std::path::Path::new(toks[0])));
+    let w = match w {
+        Err(_) => return "W:panic".into(),
+        Ok(Err(e)) => return format!("W:err:{:?}", e.kind()),
+        Ok(Ok(w)) => w,
+    };
+    let out = format!("W:ok {}", run_seg(toks));
+    drop(w);
+    out
+}
+
 pub fn run_wrt(toks: &[&str]) -> String {
     let path = toks[0];
     let t: Vec<i64> = toks[1..8].iter().map(|s| p::<i64>(s)).collect();
